@@ -200,7 +200,7 @@ class C04(Check):
               "would be altered for every later call",
         "T6": "refusal condition is `requested_end <= reached` in both continuation entry points",
     }
-    floors = {"T1": 8, "T2": 3, "T3": 3, "T4": 3, "T5": 4, "T6": 2, "T7": 2}
+    floors = {"T1": 8, "T2": 6, "T3": 3, "T4": 3, "T5": 4, "T6": 2, "T7": 2}
     decided = [
         "the accumulated result is indexed by absolute time and every time comparison compares like with like",
         "a continuation is refused exactly when the requested end is not later than the time reached (in absolute time)",
@@ -226,6 +226,7 @@ class C04(Check):
         self.t6(mod)
         self.t7(mod)
         self.t2("integrators/int_scipy.py", "Scipy", confirmed=True)
+        self.t2_start("integrators/int_scipy.py", "Scipy")
 
     def run_thorough(self) -> None:
         for rel, cls in (("integrators/int_diffrax.py", "Diffrax"), ("integrators/int_assimulo.py", "Assimulo")):
@@ -273,6 +274,34 @@ class C04(Check):
                                           "a following s.simulate(2000) restarts from t0=0")
                 else:
                     self.info("T2", rel, q, cons, node, why + " [sibling back end; optional dependency not installed here, not confirmed by hand]")
+
+    def t2_start(self, rel: str, cls: str) -> None:
+        """Scipy-shaped integrators: each integrate* starts from the current (t0, y0)."""
+        mod = self.prog.module(rel)
+        m = mod.methods(cls)
+        it = m["integrate"]
+        lin = [c for c in ast.walk(it) if isinstance(c, ast.Call) and norm(c.func) in ("np.linspace", "numpy.linspace")]
+        if lin and norm(lin[0].args[0]) == "self.t0":
+            self.holds("T2", rel, f"{cls}.integrate", "starts-at-current-time", lin[0], "time grid starts at self.t0")
+        else:
+            self.violated("T2", rel, f"{cls}.integrate", "starts-at-current-time", lin[0] if lin else it, "the time grid of a continued run does not start at the time reached (self.t0)",
+                          witness="simulate(5); simulate(10): the second segment is integrated from t = 0 with the state reached at t = 5")
+        tc = m["integrate_time_course"]
+        solver = [c for c in ast.walk(tc) if isinstance(c, ast.Call) and norm(c.func).endswith(("solve_ivp", "diffeqsolve"))]
+        kw = {k.arg: norm(k.value) for k in solver[0].keywords} if solver else {}
+        if kw.get("y0") == "self.y0":
+            self.holds("T2", rel, f"{cls}.integrate_time_course", "starts-from-current-state", solver[0], "solver started from self.y0")
+        else:
+            self.violated("T2", rel, f"{cls}.integrate_time_course", "starts-from-current-state", solver[0] if solver else tc, f"solver started from y0={kw.get('y0')}, not from the state reached",
+                          witness="simulate(5); simulate(10): the second segment restarts from the initial state")
+        guard = [s for s in strip_docstring(tc.body) if isinstance(s, ast.If) and norm(s.test) == "time_points[0] != self.t0"
+                 and [norm(b) for b in s.body] == ["time_points = np.insert(time_points, 0, self.t0)"]]
+        span_ok = kw.get("t_span") in ("(time_points[0], time_points[-1])",) or kw.get("t0") == "time_points[0]"
+        if guard and span_ok:
+            self.holds("T2", rel, f"{cls}.integrate_time_course", "starts-at-current-time", guard[0], "self.t0 is prepended when missing; integration span starts at time_points[0]")
+        else:
+            self.violated("T2", rel, f"{cls}.integrate_time_course", "starts-at-current-time", tc, "the integration span does not start at the time reached (self.t0 not prepended / span start differs)",
+                          witness="simulate_time_course([1,2]); simulate_time_course([3,4]): the second call integrates from t = 3 with the state of t = 2")
 
     def t3(self, mod) -> None:
         fn = mod.func(f"{CLS}._handle_simulation_results")
@@ -349,6 +378,15 @@ class C04(Check):
             self.violated("T4", SIM, q, "y0-merge", y0s[-1],
                           f"`{norm(v)}` is not `last row | {param}`: the restart state loses the override or the reached state",
                           witness="simulate(5); update_variable('x', 2); simulate(10) continues from the un-overridden x (or from the initial y)")
+        first = [st for st in body if isinstance(st, ast.If)]
+        fb = [x for st in first for x in st.body if isinstance(x, ast.Assign) and is_self_attr(x.targets[0], "y0")]
+        if fb:
+            fv = fb[0].value
+            if isinstance(fv, ast.BinOp) and isinstance(fv.op, ast.BitOr) and norm(fv.left) == "self.y0" and norm(fv.right) == param:
+                self.holds("T4", SIM, q, "y0-merge-before-first-run", fb[0], f"before any run: y0 := y0 | {param} (overrides win)")
+            else:
+                self.violated("T4", SIM, q, "y0-merge-before-first-run", fb[0], f"`{norm(fv)}` is not `self.y0 | {param}`: an override given before the first run is lost",
+                              witness="Simulator(m).update_variable('x', 2.0).simulate(1) starts from the model's x")
         sv = norm(shifts[-1].value)
         if any(sv in (f"float({f}[-1].index[-1])", f"{f}[-1].index[-1]") for f in frames):
             self.holds("T4", SIM, q, "shift-is-last-abs-time", shifts[-1], "_time_shift := last absolute time of the result")
@@ -498,6 +536,10 @@ class C04(Check):
             Variant("failure-stored-as-frame", SIM, H, "            self._errors.append(e)", "            self.variables = [e]", expect="T3|"),
             Variant("asarray-aliases-caller", SIM, f"{CLS}.simulate_protocol_time_course", "time_points = np.array(time_points, dtype=float)", "time_points = np.asarray(time_points, dtype=float)", expect="T7|", quick=True),
             Variant("asarray-aliases-caller-tc", SIM, f"{CLS}.simulate_time_course", "time_points = np.array(time_points, dtype=float)", "time_points = np.asarray(time_points, dtype=float)", expect="T7|"),
+            Variant("scipy-integrate-from-zero", "integrators/int_scipy.py", "Scipy.integrate", "np.linspace(self.t0, t_end, steps, dtype=float)", "np.linspace(0, t_end, steps, dtype=float)", expect="T2|", quick=True),
+            Variant("scipy-restart-from-original-state", "integrators/int_scipy.py", "Scipy.integrate_time_course", "y0=self.y0", "y0=self._y0_orig", expect="T2|"),
+            Variant("scipy-no-t0-prepend", "integrators/int_scipy.py", "Scipy.integrate_time_course", "    if time_points[0] != self.t0:\n        time_points = np.insert(time_points, 0, self.t0)\n", "", expect="T2|"),
+            Variant("first-override-lost", SIM, f"{CLS}.update_variables", "self.y0 = self.y0 | variables", "self.y0 = variables | self.y0", expect="T4|"),
             Variant("scipy-no-t0-advance", "integrators/int_scipy.py", "Scipy.integrate_time_course", "        self.t0 = t[-1]\n", "", expect="T2|", quick=True),
             Variant("scipy-no-y0-advance", "integrators/int_scipy.py", "Scipy.integrate_time_course", "        self.y0 = y[-1]\n", "", expect="T2|"),
             Variant("scipy-y0-first-row", "integrators/int_scipy.py", "Scipy.integrate_time_course", "self.y0 = y[-1]", "self.y0 = y[0]", expect="T2|"),
